@@ -96,8 +96,20 @@ def distribute_fc2_contract():
         fc = np.zeros((n, n, 3, 3))
         for d in done:
             fc[d] = np.array([rnd.uniform(-1, 1) for _ in range(n * 9)]).reshape(n, 3, 3)
+        def rot():
+            # half of the draws are crystallographic point operations in Cartesian axes (signed permutation matrices,
+            # in particular the two-folds diag(-1,-1,1) and mirrors), the others arbitrary matrices
+            if rnd.random() < 0.5:
+                p_ = rnd.sample(range(3), 3)
+                m_ = np.zeros((3, 3))
+                for a_ in range(3):
+                    m_[a_, p_[a_]] = rnd.choice([-1.0, 1.0])
+                if rnd.random() < 0.6:
+                    m_ = np.diag([rnd.choice([-1.0, 1.0]) for _ in range(3)])
+                return m_
+            return np.array([rnd.uniform(-1, 1) for _ in range(9)]).reshape(3, 3)
         return {"fc2": fc, "atom_list": np.arange(n), "len_atom_list": n, "fc_indices_of_atom_list": np.arange(n),
-                "r_carts": np.array([rnd.uniform(-1, 1) for _ in range(nr * 9)]).reshape(nr, 3, 3), "permutations": perms,
+                "r_carts": np.array([rot() for _ in range(nr)]).reshape(nr, 3, 3), "permutations": perms,
                 "map_atoms": ma, "map_syms": ms, "num_rot": nr, "num_pos": n, "n_fc_rows": n}
 
     def interp(h, ev, env):
